@@ -267,7 +267,55 @@ func (fi *FnInfo) blockFacts(b *ssa.BasicBlock) []Atom {
 
 // FactsAt returns the atoms known to hold when instruction in executes (dominance-based).
 func (fi *FnInfo) FactsAt(in ssa.Instruction) []Atom {
-	return fi.blockFacts(in.Block())
+	bf := fi.blockFacts(in.Block())
+	lib := fi.libraryContracts(in)
+	if len(lib) == 0 {
+		return bf
+	}
+	return append(append([]Atom{}, bf...), lib...)
+}
+
+// libraryContracts: value contracts of standard-library search functions whose result is used like a
+// hand-written loop's: slices.Index / slices.IndexFunc / bytes.Index… return -1 or a valid index of
+// their first argument. Stated for every such call that has executed when `in` runs.
+func (fi *FnInfo) libraryContracts(in ssa.Instruction) []Atom {
+	if fi.libCalls == nil {
+		fi.libCalls = []*ssa.Call{}
+		for _, b := range fi.Fn.Blocks {
+			for _, x := range b.Instrs {
+				if call, ok := x.(*ssa.Call); ok {
+					switch callNameGeneric(call) {
+					case "slices.Index", "slices.IndexFunc":
+						fi.libCalls = append(fi.libCalls, call)
+					}
+				}
+			}
+		}
+	}
+	var out []Atom
+	for _, call := range fi.libCalls {
+		if !instrDominates(call, in) || len(call.Common().Args) < 1 {
+			continue
+		}
+		t := fi.T(call)
+		ln := mk(TLen, "", types.Typ[types.Int], nil, fi.T(call.Common().Args[0]))
+		ln.s = ln.render()
+		out = append(out, mkAtom("<", t, ln))
+		m1 := mk(TConst, "", types.Typ[types.Int], nil)
+		m1.C = constant.MakeInt64(-1)
+		m1.s = m1.render()
+		out = append(out, mkAtom("<=", m1, t))
+	}
+	return out
+}
+
+// callNameGeneric: callee name with type arguments of generic instances stripped.
+func callNameGeneric(ci ssa.CallInstruction) string {
+	nm := callName(ci)
+	if i := strings.Index(nm, "["); i > 0 {
+		nm = nm[:i]
+	}
+	return nm
 }
 
 func hasAtom(facts []Atom, pred func(Atom) bool) (Atom, bool) {
